@@ -14,5 +14,6 @@ CONSTANTS
   KindSeq <- KindsAll
   Rots = {1, 6}
   Layouts <- LayStd
+INVARIANTS TypeOK PlacedByRef FunctionLike MergeBlank RootShown
 CONSTRAINT Emit
 CHECK_DEADLOCK FALSE
